@@ -12,6 +12,66 @@ From V Require Import Bytes StrGo C16PathMatch C11AuthZ C11AuthZProofs.
 Import ListNotations.
 Open Scope Z_scope.
 
+(* served(resource) => permit(user, canonical resource).  The reference monitor [allowed] decides on the resource
+   that is actually served: the registry key served_key p = canonical_path p of the path p the entry point hands
+   to the lookup (RTSP: CanonicalPath of the request URL or the session path; /streams/ URLs: the canonical
+   stream path, for a segment without its sequence number; WSP / ws-rtsp: the session path), not on the spelling
+   the permission check is given.  ev_ok: the pattern language and the registry read p as the same resource
+   (false only for a blank-edged dot segment, the known finding C11_unsettled_path_refuted). *)
+Theorem C11_served_requires_permit : forall w s ev,
+  reachable w s ->
+  let o := snd (step w s ev) in
+  is_request ev = true -> fst (target s ev) = APull -> ev_ok s ev = true ->
+  granted ev o = true -> keepalive s ev = false ->
+  exists u r, identity s ev = Some u /\ rights_now (users s) u = Some r /\
+              permits r PULL (served_key (snd (target s ev))) = true.
+Proof. exact served_requires_permit. Qed.
+Print Assumptions C11_served_requires_permit.
+
+Theorem C11_published_requires_permit : forall w s ev,
+  reachable w s ->
+  let o := snd (step w s ev) in
+  (match ev with ERtsp _ _ _ _ | EWsRtsp _ _ _ => True | _ => False end) ->
+  ev_ok s ev = true ->
+  zlist_eqb (o_reg o) (reg_view w (reg s)) = false ->
+  exists u r, identity s ev = Some u /\ rights_now (users s) u = Some r /\
+              fst (target s ev) = APush /\ permits r PUSH (served_key (snd (target s ev))) = true.
+Proof. exact published_requires_permit. Qed.
+Print Assumptions C11_published_requires_permit.
+
+(* what is served is the resource the decision was about: whenever a description or media stream reaches an RTSP,
+   ws-rtsp or WSP client identifiably (o_aux = position of its registry key in the watch list), it is the stream
+   registered under served_key of the request's target path, unless the session was already playing *)
+Theorem C11_served_is_the_decided_resource : forall w s ev, judge_src w s ev (snd (step w s ev)) = true.
+Proof. exact step_src. Qed.
+Print Assumptions C11_served_is_the_decided_resource.
+
+(* two spellings with the same segments are the same path to the documented language; hence on ev_ok the decision
+   on the path the code checks is the decision on the served resource *)
+Theorem C11_same_segments_same_decision : forall admin r p q,
+  same_segs p q = true -> spec_permit admin r p = spec_permit admin r q.
+Proof. exact spec_permit_same_segs. Qed.
+Print Assumptions C11_same_segments_same_decision.
+
+(* known finding (CanonicalPath not idempotent, cf. C18): the strict oracle fails on the model of the code as it is *)
+Theorem C11_unsettled_path_refuted :
+  ok_run_strict w2 s2 unsettled_evs (run w2 s2 unsettled_evs) = false /\
+  ok_run w2 s2 unsettled_evs (run w2 s2 unsettled_evs) = true /\
+  map o_code (run w2 s2 unsettled_evs) = [0; 200] /\
+  spec_allows (users s2) (u_name (mk_eve)) APull (w2_a) = false.
+Proof. exact unsettled_path_refuted. Qed.
+Print Assumptions C11_unsettled_path_refuted.
+
+(* before the repair of extractStreamPathAndExt the right was checked on the URL spelling *)
+Theorem C11_url_spelling_refuted :
+  ok_run w2 s3 spelled_evs (run_gen false w2 s3 spelled_evs) = false /\
+  map o_code (run_gen false w2 s3 spelled_evs) = [200; 101] /\
+  map o_code (run w2 s3 spelled_evs) = [403; 403] /\
+  ok_run w2 s3 spelled_evs (run w2 s3 spelled_evs) = true.
+Proof. exact url_spelling_refuted. Qed.
+Print Assumptions C11_url_spelling_refuted.
+
+(* the same statement about the path the code's permission check is given *)
 (* media (its description, the upgrade that leads to it) goes only to a caller authenticated as a user whose
    rights, as saved now, cover exactly that path for pulling — RTSP, ws-rtsp, WSP, HTTP-FLV, ws-FLV, m3u8, ts *)
 Theorem C11_media_requires_pull : forall w s ev,
@@ -94,10 +154,10 @@ Print Assumptions C11_access_check_is_spec.
 
 (* callers who hold the right are not refused *)
 Theorem C11_holder_not_refused : forall w s ev,
-  reachable w s -> is_request ev = true ->
+  reachable w s -> is_request ev = true -> ev_ok s ev = true ->
   allowed s ev = true -> feasible w s ev = true ->
   accepted ev (snd (step w s ev)) = true.
-Proof. exact holder_not_refused. Qed.
+Proof. exact holder_of_served_not_refused. Qed.
 Print Assumptions C11_holder_not_refused.
 
 (* the rights are those last saved: after a save exactly the saved ones, after a delete none, others untouched;
@@ -160,7 +220,7 @@ Print Assumptions C11_identity_header_add_refuted.
 (* the oracle applied to the implementation accepts the model on every history *)
 Theorem C11_model_passes : forall w users0 ext evs,
   ok_run w (state0 users0 ext) evs (run w (state0 users0 ext) evs) = true.
-Proof. exact model_passes. Qed.
+Proof. exact model_passes_served. Qed.
 Print Assumptions C11_model_passes.
 
 (* the code before the repairs *)
@@ -186,6 +246,12 @@ Print Assumptions C11_prefix_behaviour_refuted.
 
 (* non-vacuity: a reachable state in which bob (pull right "/a/+") is served /a/b over HTTP-FLV with his token, eve's
    refresh token is refused as an access token, and after bob's right is narrowed to /c the same request is refused *)
+(* a spelling that stays inside bob's subtree /a/+... is served, spellings that leave it are refused; ev_ok holds *)
+Example C11_served_nonvacuous :
+  map o_code (run w2 s4 inside_evs) = [0; 200; 403; 404] /\
+  forallb path_ok (map canonical_path [w2_a]) = true.
+Proof. vm_compute. split; reflexivity. Qed.
+
 Example C11_nonvacuous :
   map o_code (run w0 s0 nv_evs) = [200; 200; 401; 0; 403] /\
   reachable w0 (final w0 s0 nv_evs) /\
